@@ -17,6 +17,12 @@ struct Ctx { out: Out }
 #[derive(Clone)]
 struct Shape { ver: KeyVersion, primary: KeyType, pname: &'static str, subs: Vec<(KeyType, bool, &'static str)>, uids: usize, pass: Option<&'static str> }
 
+/// the encryption capability asked for subkey `i` of a shape (by the suffix of its name)
+fn caps_of(sh: &Shape, i: usize) -> EncryptionCaps {
+    let n = sh.subs[i].2;
+    if n.ends_with("-comm") { EncryptionCaps::Communication } else if n.ends_with("-stor") { EncryptionCaps::Storage } else { EncryptionCaps::All }
+}
+
 fn scalar_len(alg: PublicKeyAlgorithm, kt: &KeyType) -> Option<usize> {
     match (alg, kt) {
         (PublicKeyAlgorithm::EdDSALegacy, _) => Some(32),
@@ -54,7 +60,7 @@ impl Ctx {
             for (kt, sign, _) in &sh.subs {
                 let mut s = SubkeyParamsBuilder::default();
                 s.version(sh.ver).key_type(kt.clone());
-                if *sign { s.can_sign(true); } else { s.can_encrypt(EncryptionCaps::All); }
+                if *sign { s.can_sign(true); } else { s.can_encrypt(caps_of(sh, subs.len())); }
                 if let Some(p) = sh.pass { s.passphrase(Some(p.to_string())); }
                 subs.push(s.build().map_err(|e| e.to_string())?);
             }
@@ -101,8 +107,10 @@ impl Ctx {
             let Some(b) = sub.signatures.first() else { facts.push(("subkey binding present", false)); continue; };
             let f = b.key_flags();
             if spec.1 { facts.push(("signing subkey flags", f.sign() && !f.encrypt_comms())); facts.push(("signing subkey has back signature", b.embedded_signature().is_some())); }
-            else { facts.push(("encryption subkey flags", f.encrypt_comms() && f.encrypt_storage() && !f.sign())); }
-            let _ = i;
+            else {
+                let (wc, ws) = match caps_of(sh, i) { EncryptionCaps::Communication => (true, false), EncryptionCaps::Storage => (false, true), _ => (true, true) };
+                facts.push(("encryption subkey flags as requested", f.encrypt_comms() == wc && f.encrypt_storage() == ws && !f.sign() && !f.certify()));
+            }
         }
         // usable: sign / verify with the primary and with signing subkeys
         let data = format!("data {seed}");
@@ -176,6 +184,8 @@ fn main() {
             Shape { ver: KeyVersion::V6, primary: KeyType::ECDSA(ECCCurve::P256), pname: "p256", subs: vec![(KeyType::ECDH(ECCCurve::P256), false, "ecdh-p256")], uids: 1, pass: None },
             Shape { ver: KeyVersion::V6, primary: KeyType::ECDSA(ECCCurve::P384), pname: "p384", subs: vec![(KeyType::ECDSA(ECCCurve::P384), true, "sign-p384")], uids: 1, pass: Some("pass") },
         ];
+        v.push(Shape { ver: KeyVersion::V4, primary: KeyType::Ed25519Legacy, pname: "eddsa-legacy", subs: vec![(KeyType::ECDH(ECCCurve::Curve25519Legacy), false, "cv25519-comm"), (KeyType::ECDH(ECCCurve::P256), false, "ecdh-p256-stor")], uids: 1, pass: None });
+        v.push(Shape { ver: KeyVersion::V6, primary: KeyType::Ed25519, pname: "ed25519", subs: vec![(KeyType::X25519, false, "x25519-stor"), (KeyType::X448, false, "x448-comm")], uids: 1, pass: None });
         v.push(Shape { ver: KeyVersion::V4, primary: KeyType::Rsa(2048), pname: "rsa2048", subs: vec![(KeyType::Rsa(2048), false, "rsa2048")], uids: 1, pass: None });
         v.push(Shape { ver: KeyVersion::V4, primary: KeyType::Dsa(pgp::composed::DsaKeySize::B2048), pname: "dsa", subs: vec![enc4.clone()], uids: 1, pass: None });
         v
@@ -204,7 +214,7 @@ fn main() {
                 let _ = before;
                 // cheap probe: generate and look at the scalars only
                 let mut subs = Vec::new();
-                for (kt, sign, _) in &sh.subs { let mut b = SubkeyParamsBuilder::default(); b.version(sh.ver).key_type(kt.clone()); if *sign { b.can_sign(true); } else { b.can_encrypt(EncryptionCaps::All); } subs.push(b.build().unwrap()); }
+                for (kt, sign, _) in &sh.subs { let mut b = SubkeyParamsBuilder::default(); b.version(sh.ver).key_type(kt.clone()); if *sign { b.can_sign(true); } else { b.can_encrypt(caps_of(sh, subs.len())); } subs.push(b.build().unwrap()); }
                 let mut p = SecretKeyParamsBuilder::default();
                 p.version(sh.ver).key_type(sh.primary.clone()).can_certify(true).can_sign(true).subkeys(subs);
                 if sh.uids >= 1 { p.primary_user_id(format!("primary {seed} <p{seed}@example.org>")); }
@@ -233,7 +243,7 @@ fn main() {
     for (si, seeds) in LEADING_ZERO_SEEDS { for s in *seeds { cx.one(&shapes_all[*si], *s); } }
     for sh in &shapes_all {
         let slow = matches!(sh.primary, KeyType::Rsa(_) | KeyType::Dsa(_));
-        let n: u64 = if slow { if thorough { 6 } else { 1 } } else if thorough { 1500 } else { 60 };
+        let n: u64 = if slow { if thorough { 6 } else { 1 } } else if thorough { 600 } else { 60 };
         for s in 0..n { cx.one(sh, cli.seed * 100_000 + s); }
     }
     cx.out.finish();
